@@ -246,3 +246,139 @@ package interpreter
 //@   ensures[C15] kind(result) == UFix64Value && num(result.(UFix64Value)) == a - ediv(q, 100000000) * b
 //@   env MemoryMeteringError
 //@   modifies ghost("metered")
+
+// ---- InclusiveRange (C21). Generic code over IntegerValue: interface contracts in terms of ghost attributes
+// of a numeric value x: mval(x) its integer value, ghostof(x,"bounded") ghostof(x,"haslo")/"hashi" whether its type has
+// a lower/upper bound, ghostof(x,"lo") / ghostof(x,"hi") those bounds. (They restate, for an unknown integer kind, what
+// C11/C18 prove per concrete type; assumed here.)
+//@ spec outofty(x, r) = (ghostof(x, "haslo") != 0 && r < ghostof(x, "lo")) || (ghostof(x, "hashi") != 0 && r > ghostof(x, "hi"))
+//@ spec samety(a, b) = kind(a) == kind(b) && ghostof(a, "haslo") == ghostof(b, "haslo") && ghostof(a, "hashi") == ghostof(b, "hashi") && ghostof(a, "wraps") == ghostof(b, "wraps") && (ghostof(a, "haslo") != 0 ==> ghostof(a, "lo") == ghostof(b, "lo")) && (ghostof(a, "hashi") != 0 ==> ghostof(a, "hi") == ghostof(b, "hi"))
+// the bounds of the concrete integer kinds (Int: none; UInt: lower bound only)
+//@ spec tybounds(a) = (kind(a) == Int8Value ==> ghostof(a, "wraps") == 0 && ghostof(a, "haslo") == 1 && ghostof(a, "hashi") == 1 && ghostof(a, "lo") == -pow2(7) && ghostof(a, "hi") == pow2(7)-1) && (kind(a) == Int16Value ==> ghostof(a, "wraps") == 0 && ghostof(a, "haslo") == 1 && ghostof(a, "hashi") == 1 && ghostof(a, "lo") == -pow2(15) && ghostof(a, "hi") == pow2(15)-1) && (kind(a) == Int32Value ==> ghostof(a, "wraps") == 0 && ghostof(a, "haslo") == 1 && ghostof(a, "hashi") == 1 && ghostof(a, "lo") == -pow2(31) && ghostof(a, "hi") == pow2(31)-1) && (kind(a) == Int64Value ==> ghostof(a, "wraps") == 0 && ghostof(a, "haslo") == 1 && ghostof(a, "hashi") == 1 && ghostof(a, "lo") == -pow2(63) && ghostof(a, "hi") == pow2(63)-1) && (kind(a) == Int128Value ==> ghostof(a, "wraps") == 0 && ghostof(a, "haslo") == 1 && ghostof(a, "hashi") == 1 && ghostof(a, "lo") == -pow2(127) && ghostof(a, "hi") == pow2(127)-1) && (kind(a) == Int256Value ==> ghostof(a, "wraps") == 0 && ghostof(a, "haslo") == 1 && ghostof(a, "hashi") == 1 && ghostof(a, "lo") == -pow2(255) && ghostof(a, "hi") == pow2(255)-1) && (kind(a) == UInt8Value ==> ghostof(a, "wraps") == 0 && ghostof(a, "haslo") == 1 && ghostof(a, "hashi") == 1 && ghostof(a, "lo") == 0 && ghostof(a, "hi") == pow2(8)-1) && (kind(a) == UInt16Value ==> ghostof(a, "wraps") == 0 && ghostof(a, "haslo") == 1 && ghostof(a, "hashi") == 1 && ghostof(a, "lo") == 0 && ghostof(a, "hi") == pow2(16)-1) && (kind(a) == UInt32Value ==> ghostof(a, "wraps") == 0 && ghostof(a, "haslo") == 1 && ghostof(a, "hashi") == 1 && ghostof(a, "lo") == 0 && ghostof(a, "hi") == pow2(32)-1) && (kind(a) == UInt64Value ==> ghostof(a, "wraps") == 0 && ghostof(a, "haslo") == 1 && ghostof(a, "hashi") == 1 && ghostof(a, "lo") == 0 && ghostof(a, "hi") == pow2(64)-1) && (kind(a) == UInt128Value ==> ghostof(a, "wraps") == 0 && ghostof(a, "haslo") == 1 && ghostof(a, "hashi") == 1 && ghostof(a, "lo") == 0 && ghostof(a, "hi") == pow2(128)-1) && (kind(a) == UInt256Value ==> ghostof(a, "wraps") == 0 && ghostof(a, "haslo") == 1 && ghostof(a, "hashi") == 1 && ghostof(a, "lo") == 0 && ghostof(a, "hi") == pow2(256)-1) && (kind(a) == Word8Value ==> ghostof(a, "wraps") == 1 && ghostof(a, "haslo") == 1 && ghostof(a, "hashi") == 1 && ghostof(a, "lo") == 0 && ghostof(a, "hi") == pow2(8)-1) && (kind(a) == Word16Value ==> ghostof(a, "wraps") == 1 && ghostof(a, "haslo") == 1 && ghostof(a, "hashi") == 1 && ghostof(a, "lo") == 0 && ghostof(a, "hi") == pow2(16)-1) && (kind(a) == Word32Value ==> ghostof(a, "wraps") == 1 && ghostof(a, "haslo") == 1 && ghostof(a, "hashi") == 1 && ghostof(a, "lo") == 0 && ghostof(a, "hi") == pow2(32)-1) && (kind(a) == Word64Value ==> ghostof(a, "wraps") == 1 && ghostof(a, "haslo") == 1 && ghostof(a, "hashi") == 1 && ghostof(a, "lo") == 0 && ghostof(a, "hi") == pow2(64)-1) && (kind(a) == Word128Value ==> ghostof(a, "wraps") == 1 && ghostof(a, "haslo") == 1 && ghostof(a, "hashi") == 1 && ghostof(a, "lo") == 0 && ghostof(a, "hi") == pow2(128)-1) && (kind(a) == Word256Value ==> ghostof(a, "wraps") == 1 && ghostof(a, "haslo") == 1 && ghostof(a, "hashi") == 1 && ghostof(a, "lo") == 0 && ghostof(a, "hi") == pow2(256)-1) && (kind(a) == UIntValue ==> ghostof(a, "wraps") == 0 && ghostof(a, "haslo") == 1 && ghostof(a, "hashi") == 0 && ghostof(a, "lo") == 0) && (kind(a) == IntValue ==> ghostof(a, "wraps") == 0 && ghostof(a, "haslo") == 0 && ghostof(a, "hashi") == 0)
+//@ spec inty(a) = a != nil && implements(a, IntegerValue) && tybounds(a) && (ghostof(a, "haslo") != 0 ==> ghostof(a, "lo") <= mval(a)) && (ghostof(a, "hashi") != 0 ==> mval(a) <= ghostof(a, "hi"))
+//@ iface NumberValue.Plus
+//@   assumed
+//@   requires other != nil
+//@   fails kind(other) != kind(self) => InvalidOperandsError
+//@   fails kind(other) == kind(self) && ghostof(self, "wraps") == 0 && outofty(self, mval(self) + mval(other)) => OverflowError|UnderflowError
+//@   ensures samety(result, self) && mval(result) == ite(ghostof(self, "wraps") != 0, emod(mval(self) + mval(other), ghostof(self, "hi") + 1), mval(self) + mval(other)) && result != nil
+//@   env MemoryMeteringError ComputationMeteringError
+//@ iface NumberValue.Minus
+//@   assumed
+//@   requires other != nil
+//@   fails kind(other) != kind(self) => InvalidOperandsError
+//@   fails kind(other) == kind(self) && ghostof(self, "wraps") == 0 && outofty(self, mval(self) - mval(other)) => OverflowError|UnderflowError
+//@   ensures samety(result, self) && mval(result) == ite(ghostof(self, "wraps") != 0, emod(mval(self) - mval(other), ghostof(self, "hi") + 1), mval(self) - mval(other)) && result != nil
+//@   env MemoryMeteringError ComputationMeteringError
+//@ iface NumberValue.Mod
+//@   assumed
+//@   requires other != nil
+//@   fails kind(other) != kind(self) => InvalidOperandsError
+//@   fails kind(other) == kind(self) && mval(other) == 0 => DivisionByZeroError
+//@   ensures samety(result, self) && mval(result) == trem(mval(self), mval(other)) && result != nil
+//@   env MemoryMeteringError ComputationMeteringError
+//@ iface ComparableValue.Less
+//@   assumed
+//@   requires other != nil
+//@   fails kind(other) != kind(self) => InvalidOperandsError
+//@   ensures iff(result, mval(self) < mval(other))
+//@   env ComputationMeteringError
+//@ iface ComparableValue.Greater
+//@   assumed
+//@   requires other != nil
+//@   fails kind(other) != kind(self) => InvalidOperandsError
+//@   ensures iff(result, mval(self) > mval(other))
+//@   env ComputationMeteringError
+//@ iface EquatableValue.Equal
+//@   assumed
+//@   nofail
+//@   ensures kind(other) == kind(self) ==> iff(result, mval(self) == mval(other))
+//@   env ComputationMeteringError
+
+// beyond(x, e): x is past the end e in the direction of the step
+//@ spec rbeyond(neg, x, e) = ite(neg, x < e, x > e)
+//@ func (*InclusiveRangeIterator).validate
+//@   requires inty(element) && inty(i.end) && samety(element, i.end)
+//@   nofail
+//@   env ComputationMeteringError
+//@   ensures[C21] iff(result == nil, rbeyond(i.stepNegative, mval(element), mval(i.end)))
+//@   ensures[C21] result != nil ==> mval(result) == mval(element) && samety(result, element)
+// Next yields the current element and advances by step; it must not fail while the element is within the
+// range, even when the end is the type's minimum or maximum (C21).
+//@ func (*InclusiveRangeIterator).stepExceedsEnd
+//@   inline
+//@ func (*InclusiveRangeIterator).Next
+//@   requires inty(i.step) && inty(i.end) && samety(i.step, i.end)
+//@   requires inty(i.zero) && samety(i.zero, i.end) && mval(i.zero) == 0
+//@   requires mval(i.step) != 0 && iff(i.stepNegative, mval(i.step) < 0)
+//@   requires i.next != nil ==> inty(i.next) && samety(i.next, i.end) && !rbeyond(i.stepNegative, mval(i.next), mval(i.end))
+//@   nofail
+//@   env MemoryMeteringError ComputationMeteringError
+//@   modifies *i
+//@   ensures[C21] old(i.next) == nil ==> result == nil
+//@   ensures[C21] old(i.next) != nil ==> result != nil && mval(result) == old(mval(i.next))
+//@   ensures[C21] old(i.next) != nil ==> iff(i.next == nil, rbeyond(i.stepNegative, old(mval(i.next)) + mval(i.step), mval(i.end)))
+//@   ensures[C21] old(i.next) != nil && i.next != nil ==> mval(i.next) == old(mval(i.next)) + mval(i.step)
+// the iterator invariant is kept (so the clauses above describe every later call as well), the cached fields are untouched
+//@   ensures[C21] i.next != nil ==> inty(i.next) && samety(i.next, i.end) && !rbeyond(i.stepNegative, mval(i.next), mval(i.end))
+//@   ensures[C21] i.stepNegative == old(i.stepNegative) && mval(i.step) == old(mval(i.step)) && mval(i.end) == old(mval(i.end)) && mval(i.zero) == old(mval(i.zero)) && samety(i.step, i.end) && samety(i.zero, i.end)
+
+// The fields of the range composite. Reading them goes through atree-backed storage, which is outside the
+// contract language: the reads are abstracted as the values rfield(k) (k = 1 start, 2 end, 3 step) of one
+// integer kind rfield(0), with the bounds of that kind. (Assumed: a constructed range stores three values of
+// its element type, and reading a field returns what was stored.)
+//@ ufun rfield(Int) Int
+//@ func getFieldAsIntegerValue
+//@   assumed
+//@   nofail
+//@   env MemoryMeteringError ComputationMeteringError
+//@   ensures inty(result) && kind(result) == rfield(0) && mval(result) == ite(name == "start", rfield(1), ite(name == "end", rfield(2), rfield(3)))
+//@ func GetSmallIntegerValue
+//@   assumed
+//@   nofail
+//@   env MemoryMeteringError ComputationMeteringError
+//@   ensures inty(result) && kind(result) == ghostof(staticType, "ikind") && mval(result) == num(value)
+// member(x): x is start + k*step for some k >= 0 and not beyond end
+//@ spec rmember(x, s, e, st) = ite(st > 0, s <= x && x <= e, e <= x && x <= s) && emod(x - s, abs(st)) == 0
+//@ func isNeedleAfterStartUpToEnd
+//@   inline
+//@ func InclusiveRangeContains
+//@   option split=16
+//@   casesplit rfield(3) > 0 | rfield(3) < 0
+//@   requires needleValue != nil && inty(needleValue) && kind(needleValue) == rfield(0) && ghostof(rangeType.ElementType, "ikind") == rfield(0)
+//@   requires rfield(3) != 0 && (rfield(1) < rfield(2) ==> rfield(3) > 0) && (rfield(1) > rfield(2) ==> rfield(3) < 0)
+// needle - start = (needle rem step - start rem step) + step * (difference of the quotients): proved lemmas
+//@   assume L_trem(mval(needleValue), rfield(3)) && L_trem(rfield(1), rfield(3))
+//@   assume L_modshift(trem(mval(needleValue), rfield(3)) - trem(rfield(1), rfield(3)), (tdiv(mval(needleValue), rfield(3)) - tdiv(rfield(1), rfield(3))) * ite(rfield(3) > 0, 1, -1), abs(rfield(3)))
+//@   assume L_mod3(trem(mval(needleValue), rfield(3)) - trem(rfield(1), rfield(3)), abs(rfield(3)))
+//@   nofail
+//@   env MemoryMeteringError ComputationMeteringError
+//@   ensures[C21] iff(result, ite(rfield(1) == rfield(2), mval(needleValue) == rfield(1), rmember(mval(needleValue), rfield(1), rfield(2), rfield(3))))
+
+// The static type of an integer value denotes that value's kind.
+//@ iface Value.StaticType
+//@   assumed
+//@   nofail
+//@   env MemoryMeteringError ComputationMeteringError
+//@   ensures ghostof(result, "ikind") == kind(self)
+// A new iterator starts at the range's start and satisfies the invariant that Next requires and keeps.
+//@ func NewInclusiveRangeIterator
+//@   requires ghostof(typ.ElementType, "ikind") == rfield(0)
+//@   requires rfield(3) != 0 && (rfield(1) < rfield(2) ==> rfield(3) > 0) && (rfield(1) > rfield(2) ==> rfield(3) < 0)
+//@   nofail
+//@   env MemoryMeteringError ComputationMeteringError
+//@   ensures[C21] result != nil && result.next != nil && mval(result.next) == rfield(1) && mval(result.end) == rfield(2) && mval(result.step) == rfield(3) && mval(result.zero) == 0 && iff(result.stepNegative, rfield(3) < 0)
+//@   ensures[C21] inty(result.next) && inty(result.step) && inty(result.end) && inty(result.zero) && samety(result.next, result.end) && samety(result.step, result.end) && samety(result.zero, result.end)
+// Construction: rejected exactly when the step is zero or leads away from the end.
+//@ func createInclusiveRange
+//@   assumed
+//@   nofail
+//@   env MemoryMeteringError ComputationMeteringError
+//@   ensures result != nil
+//@ func isSequenceMovingAwayFromEnd
+//@   inline
+//@ func NewInclusiveRangeValueWithStep
+//@   requires inty(start) && inty(end) && inty(step) && samety(start, end) && samety(step, end)
+//@   fails[C21] mval(step) == 0 || (mval(start) < mval(end) && mval(step) < 0) || (mval(start) > mval(end) && mval(step) > 0) => InclusiveRangeConstructionError
+//@   env MemoryMeteringError ComputationMeteringError
+//@   ensures[C21] result != nil
